@@ -189,7 +189,7 @@ void SampledDimension::unit(const std::string &unit) {
 
 
 void SampledDimension::samplingInterval(double interval) {
-    if (interval <= 0.0) {
+    if (!(interval > 0.0)) {
         throw std::runtime_error("SampledDimenion::samplingInterval: Sampling intervals must be larger than 0.0!");
     }
     backend()->samplingInterval(interval);
